@@ -335,7 +335,8 @@ UnfoldVerdict(c) ==
       svs == Values(c.stream) IN
   IF c.outcome # "ok" THEN <<"C13:outcome:" \o c.outcome, "C14:outcome:" \o c.outcome>>
   ELSE IF ~CWellFormed(ExpandAll(c.stream), 1) \/ Len(svs) # 1 THEN <<"INFRA:generated stream is not one well-formed value">>
-  ELSE IF x.stage = "settarget" THEN (IF TypeHasRefusal(T, 6) THEN <<>> ELSE <<"C13:target type not accepted (" \o x.err \o ")">>)
+  ELSE IF x.stage = "settarget" THEN (IF TypeHasRefusal(T, 6) \/ UnfoldMayRefuse(T, 6) THEN <<>>
+                                      ELSE <<"C13:target type not accepted (" \o x.err \o ")">>)
   ELSE LET want == Exp(T, x.v0, svs[1]) IN
        IF HasUnspec(want) THEN <<"INFO:unspecified">>
        ELSE IF x.stage # "" THEN <<"C13:matching stream not accepted (" \o x.err \o ")">>
